@@ -34,6 +34,9 @@ OWNERS_FLOOR = 4
 
 
 def run(F, res, tier):
+    _lv = pcache.results(F).get("loop_viol") or {}
+    res.ob("B8", "parser-loops-progress", "every loop of the parser consumes a token per iteration (C02/P2): one token in one body that a list loop accepts and its element parser does not consume takes the whole file down with it", not _lv,
+           where="crates/syntax/src/parser.rs", how="loops that can go round without consumption: %s" % sorted(_lv)[:6] if _lv else "all loops progress")
     from rules import c14 as _c14u
     _c14u.text_positions_are_counted_in_bytes(F, res, rule="B7", crates=('syntax',))   # engine U: a string token that ends early turns its closing quote into an opener: the damage leaves the definition
     R = pcache.results(F)
